@@ -173,8 +173,13 @@ TSnapshotDev == /\ Devs # {}
                 /\ fresh' = [fresh EXCEPT ![Ev.node] = FALSE]     \* no Cleanup claim for this snapshot
                 /\ UNCHANGED <<adj, has, adding, rq, delivered, larr, lsure, sess, aux>>
 
+\* D, liveness facet: the sender still holds the stale want of an earlier call of the session that was served by a
+\* local announcement, so the add of a later call for the same key is a no-op and nothing is sent
+StaleLocal(r) == rq[r].s # 0 /\ \E q \in Req \ {r} : /\ rq[q].st # "none" /\ rq[q].s = rq[r].s
+                                                   /\ larr[q] \cap KeySet(q) \cap Awaited(r) # {}
 TimeoutExcuse(r) == IF "Dev_C37_SharedWantCancelled" \in Devs /\ kA[r] \cap Awaited(r) # {} THEN "Dev_C37_SharedWantCancelled"
                ELSE IF "Dev_C37_RewantAfterCancel" \in Devs /\ kF[r] \cap Awaited(r) # {} THEN "Dev_C37_RewantAfterCancel"
+               ELSE IF "Dev_C37_LocalBlockWantLeak" \in Devs /\ StaleLocal(r) THEN "Dev_C37_LocalBlockWantLeak"
                ELSE IF "Dev_C37_CrossSessionCancelWipe" \in Devs /\ kG[r] \cap Awaited(r) # {} THEN "Dev_C37_CrossSessionCancelWipe"
                ELSE "none"
 TTimeoutDev == /\ Devs # {}
